@@ -65,6 +65,7 @@ const BuildTimeout = "timeout: go build did not finish"
 
 // Build compiles the home package of the scratch module under the ordinary build.
 func Build(dir string) (bool, []CompileError, string) {
+	hx.ScratchCacheTick()
 	r := hx.GoTool(dir, 180*time.Second, "build", "-gcflags=-e", "./home/")
 	if r.Exit == 0 {
 		return true, nil, ""
